@@ -130,6 +130,38 @@ CLAIMS = {
                 "parameterized-replaceable kind is deleted only after equality of normalised d values.",
         "not_decided": "arrival-order outcomes, equal timestamps; whether an older incoming event is itself kept.",
     },
+    "C10": {
+        "technique": "sibling/registry analysis of the index classes (write vs clear key expressions, purity of convert/to_key), same-list rule for "
+                     "add and delete paths, who-may-call on txn mutations and index-only writes, prefix/tombstone ordering table",
+        "text": TXT + "Decides: clear deletes what write puts for every registry class; key derivation is a pure function of the event; add and "
+                "delete iterate the same list incl. the primary record; keyspace mutations only inside the index classes and one transaction; "
+                "distinct one-byte prefixes below the tombstone, written before the writer starts.",
+        "not_decided": "coherence after arbitrary histories as a runtime invariant; msgpack stability of exotic tag values.",
+    },
+    "C17": {
+        "technique": "constant-table comparison of the ephemeral range at its three sites, SQL text structure analysis of the GC statement (disjunct "
+                     "count, ordering domain of the expiration comparison), structural rule on the LMDB range walks incl. helper generators",
+        "text": TXT + "Decides (necessary conditions only): same half-open kind range everywhere; exactly two deletion sources; bounded range walks "
+                "with unpadded end keys; lexicographic / bare-CAST expiration comparisons are reported; ephemeral events bypass LMDB storage "
+                "but are broadcast; single collector that survives failing passes.",
+        "not_decided": "frame condition as behaviour (JOIN semantics, real key ranges); clock handling.",
+    },
+    "C18": {
+        "technique": "CFG must-pass-through on the limiter's verdict edge, record-iff-admitted path rule, growth-without-eviction lint, "
+                     "orientation agreement between insertion / idleness tests / eviction, control-dependence of the precedence return",
+        "text": TXT + "Decides (structural part): the limiter verdict dominates every command branch and the accept; timestamps recorded only on the "
+                "admitted edge into the evaluated deque; per-element eviction bounded by the longest interval; newest/oldest ends used "
+                "consistently; specific-address precedence only when that section rules the command; cleanup on disconnect.",
+        "not_decided": "the sliding-window arithmetic itself; rule parsing; IPv6 keys.",
+    },
+    "C20": {
+        "technique": "API-contract lint on stream reads (readexactly with the written record width), CFG path rule on the peer table "
+                     "(snapshot after the read, copy when the body awaits, no-echo guard), call-site placement of the announcement",
+        "text": TXT + "Decides: ids are read as whole 32-byte records on both sides; the relay writes to every peer but the origin, from a table read "
+                "after the id arrived; the client re-reads the event and uses the local fan-out; both backends announce after the local "
+                "fan-out and, on SQL, after commit; announcing is conditional on the notifier created iff should_run_notifier.",
+        "not_decided": "exactly-once under peer reconnects; LMDB writer not yet committed when a peer looks the id up.",
+    },
 }
 
 PENDING = "checker for this property is not implemented yet in this revision; nothing is claimed"
